@@ -156,10 +156,13 @@ class LexInfZ3(Inference):
             return False
         if v < f:
             return True
+        # Tie in this layer: the query holds iff SOME minimum-cardinality verifying set has a
+        # continuation that beats the continuation of EVERY minimum-cardinality falsifying set.
+        if partition_index == 0:
+            return False
         for xi_i in [s for s in xi_i_set if len(s) == v]:
+            beats_all = True
             for xi_i_prime in [s for s in xi_i_prime_set if len(s) == f]:
-                if partition_index == 0:
-                    return False
                 opt_v.push()
                 opt_f.push()
                 [opt_v.add(c.make_A_then_not_B()) for c in xi_i]
@@ -178,8 +181,11 @@ class LexInfZ3(Inference):
                 opt_v.pop()
                 opt_f.pop()
                 if result == False:
-                    return False
-        return True
+                    beats_all = False
+                    break
+            if beats_all:
+                return True
+        return False
 
     """
     Minimal Correction Subset Calculation
